@@ -347,6 +347,7 @@ def raw_tamperings(p0, spec, rnd):
                 'sig-r-byte': bytes(sig[:4 + lr - 1]) + bytes([sig[4 + lr - 1] ^ 1]) + bytes(sig[4 + lr:]),
                 'sig-s-byte': bytes(sig[:-2]) + bytes([sig[-2] ^ 1]) + bytes(sig[-1:]),
                 'sig-hashtype': bytes(sig[:-1]) + bytes([sig[-1] ^ 2]),
+                'sig-hashtype-00': bytes(sig[:-1]) + b'\x00',
                 'sig-der-len': bytes(sig[:1]) + bytes([sig[1] ^ 1]) + bytes(sig[2:]),
                 'sig-truncated': bytes(sig[:-3]) + bytes(sig[-1:]),
             }
@@ -355,6 +356,8 @@ def raw_tamperings(p0, spec, rnd):
             if fs > ec.N // 2:
                 fs = ec.N - fs
             muts['sig-foreign'] = ec.der_encode(fr, fs) + b'\x01'
+            hb = rnd.choice([0x02, 0x04, 0x41, 0x80, 0x81, 0x82, 0x83, 0xff])
+            muts['sig-hashtype-%02x' % hb] = bytes(sig[:-1]) + bytes([hb])
             for name, newsig in muts.items():
                 p = copy.deepcopy(p0)
                 set_item(p, k, loc, newsig)
@@ -452,7 +455,7 @@ def phase_raw_tamper(col, case, spec, pos, rnd, raw_signed):
         kind = spec['ins'][int(label.split(':')[1])]['kind'] if on_input else 'tx'
         col.case('verdict/%s/%s' % (label.split(':')[0], 'valid' if rv else 'invalid'), nontrivial=(kind, 'parse', label.split(':')[0]))
         if lv and not rv:
-            col.violation(K_HASHTYPE_IGNORED if label.startswith('raw-sig-hashtype:') else None,
+            col.violation(K_HASHTYPE_IGNORED if label.startswith('raw-sig-hashtype') else None,
                           '[%s] UNSOUND after parse: library verify() True, reference invalid: %s'
                           % (label, [r.reason for r in res if hasattr(r, 'ok') and not r.ok][:2]), dict(case, label=label),
                           {'lib': True, 'raw': raw.hex()[:1500]}, {'ref': False})
